@@ -34,10 +34,13 @@ inductive RxTok
   | lparen | rparen | infix | postfix | lit
   deriving DecidableEq, Repr
 
-/-- Python's `\s` on the ASCII range (the lexer's `\S` rule matches everything else). -/
+/-- Python's `\s` (`str.isspace` on one character): the lexer's `\S` rule matches everything
+else.  Same set as `AV.Rx.isPySpace` of the C10 lexer model. -/
 def pyIsSpace (c : Char) : Bool :=
-  c = ' ' || c = '\t' || c = '\n' || c = '\r' || c.toNat = 11 || c.toNat = 12 ||
-  (28 ≤ c.toNat && c.toNat ≤ 31) || c.toNat = 133 || c.toNat = 160
+  let n := c.toNat
+  (0x9 ≤ n && n ≤ 0xd) || (0x1c ≤ n && n ≤ 0x1f) || n == 0x20 || n == 0x85 || n == 0xa0 ||
+  n == 0x1680 || (0x2000 ≤ n && n ≤ 0x200a) || n == 0x2028 || n == 0x2029 || n == 0x202f ||
+  n == 0x205f || n == 0x3000
 
 /-- `Lexer.lex` with the rules of `get_regex_lexer`, one token per character (first
 registered rule wins among equally long matches; the quantifier rule `\{(.*?),(.*?)\}` is
